@@ -43,6 +43,15 @@ def discharge(pc, goal, want_model=True):
         s.add(*pc)
         s.add(z3.Not(goal))
         return s, s.check()
+    # substring / prefix reasoning over uninterpreted string functions: cvc5 decides these in a fraction of a second
+    # where z3 regularly spends its whole first budget, so it goes first there
+    if cvc5_first(pc, goal):
+        s0 = z3.Solver()
+        s0.add(*pc)
+        s0.add(z3.Not(goal))
+        r0 = run_cvc5(s0.to_smt2(), min(10, timeouts()[1]))
+        if r0 == 'unsat':
+            return {'result': 'unsat', 'backend': 'cvc5', 'time_s': time.time() - t0, 'model': None}
     s, r = z3_try(QUICK_Z3_MS)
     if r == z3.unknown:
         r2 = run_cvc5(s.to_smt2(), timeouts()[1])
@@ -63,6 +72,35 @@ def discharge(pc, goal, want_model=True):
         return {'result': 'sat', 'backend': 'z3', 'time_s': dt, 'model': s.model()}
     return {'result': 'unknown', 'backend': 'z3+cvc5', 'time_s': dt, 'model': None,
             'reason': s.reason_unknown()}
+
+
+def cvc5_first(pc, goal):
+    if not os.path.exists(CVC5):
+        return False
+    seen = set()
+    todo = [goal] + list(pc)
+    fold_apps = False
+    substr = False
+    n = 0
+    while todo and n < 20000:
+        x = todo.pop()
+        k = x.get_id()
+        if k in seen:
+            continue
+        seen.add(k)
+        n += 1
+        if z3.is_app(x):
+            kind = x.decl().kind()
+            if kind in (z3.Z3_OP_SEQ_PREFIX, z3.Z3_OP_SEQ_EXTRACT):
+                substr = True
+            elif kind == z3.Z3_OP_UNINTERPRETED and x.num_args() == 1 and z3.is_string(x):
+                fold_apps = True
+            if substr and fold_apps:
+                return True
+            todo.extend(x.children())
+        elif z3.is_quantifier(x):
+            todo.append(x.body())
+    return False
 
 
 def run_cvc5(smt2, tlimit_s):
